@@ -151,7 +151,8 @@ static void sleepq_event(uint32_t id, uint64_t a, uint64_t b) {
     if (id != photon::verif::E_SLEEPQ_BAD) return;
     c_walk_events.add();
     int kind = a & 0xff, site = (a >> 8) & 0xff;
-    const char* k = kind == 1 ? "sleepq/back-index-wrong" : kind == 2 ? "sleepq/heap-order-broken" : "sleepq/expired-sleeper-left-behind";
+    const char* k = kind == 1 ? "sleepq/back-index-wrong" : kind == 2 ? "sleepq/heap-order-broken"
+                  : kind == 3 ? "sleepq/expired-sleeper-left-behind" : "sleepq/expired-sleeper-starved-for-32-passes";
     vh::violation(k, "sleep-heap invariant violated (walker inside the scheduler)",
                   vh::JObj().kv("kind", kind).kv("site", site == 1 ? "push" : site == 2 ? "pop_front" : site == 3 ? "pop(middle)" : "resume-pass").kv("index", b).str());
 }
@@ -237,6 +238,79 @@ static void run_shutdown(vh::Rng& r, int rounds) {
     }
 }
 
+
+// ---------------------------------------------------------------- targeted: sustained cross-vCPU wake-up pressure
+// vCPU 0 hosts workers that sleep without deadline and a few finite timers; vCPU 1 re-interrupts the workers as
+// fast as it can, so that (almost) every scheduling round of vCPU 0 finds freshly interrupted threads in its
+// stand-by queue. The timers must still be resumed in the first round after their deadline: the in-library walker
+// counts consecutive resume passes that leave an expired sleeper behind (logical time, no wall-clock verdict).
+static std::atomic<thread*> g_pw[4];
+static std::atomic<int> g_pw_sleeping[4];
+static std::atomic<bool> g_pressure_on{false}, g_pressure_end{false};
+static std::atomic<int> g_pressure_alive{0};
+static std::atomic<uint64_t> g_pressure_delivered{0};
+static vh::NamedCounter c_pressure_intr("pressure_interrupts"), c_pressure_timer("pressure_timer_sleeps");
+static void* pressure_worker(void* arg) {
+    int i = (int)(uintptr_t)arg;
+    g_pw[i].store(CURRENT, std::memory_order_release);
+    while (!g_pressure_end.load(std::memory_order_acquire)) {
+        g_pw_sleeping[i].store(1, std::memory_order_release);
+        thread_usleep(-1);
+        g_pw_sleeping[i].store(0, std::memory_order_release);
+        // do not go back to sleep before the other vCPU has put another worker into our stand-by queue: this keeps
+        // the queue non-empty at (almost) every scheduling round; a plain OS-level spin, bounded
+        auto d0 = g_pressure_delivered.load(std::memory_order_acquire);
+        for (int spin = 0; spin < 200000 && g_pressure_delivered.load(std::memory_order_acquire) == d0 &&
+                           !g_pressure_end.load(std::memory_order_acquire); ++spin) _mm_pause();
+    }
+    g_pw[i].store(nullptr, std::memory_order_release);
+    g_pressure_alive.fetch_sub(1);
+    return nullptr;
+}
+static void* pressure_timer(void* arg) {
+    vh::Rng r(vh::mix(vh::args().xseed(), 8800 + (uintptr_t)arg));
+    while (!g_pressure_end.load(std::memory_order_acquire)) {
+        Timeout t(r.range(500, 8000));
+        int ret = thread_usleep(t);
+        auto rt = vh::boottime_us();
+        if (ret == 0 && rt < t.expiration())
+            vh::violation("sleep/early:pressure", "thread_usleep returned 0 before its deadline", "null");
+        c_pressure_timer.add();
+        vh::event();
+        vh::progress();
+    }
+    g_pressure_alive.fetch_sub(1);
+    return nullptr;
+}
+static void run_pressure(int v, uint64_t interrupts) {
+    if (v == 0) {
+        g_pressure_alive.store(7);
+        for (int i = 0; i < 4; ++i) thread_create(pressure_worker, (void*)(uintptr_t)i, 64 * 1024);
+        for (int i = 0; i < 3; ++i) thread_create(pressure_timer, (void*)(uintptr_t)i, 64 * 1024);
+        thread_usleep(2000);
+        g_pressure_on.store(true, std::memory_order_release);
+        while (!g_pressure_end.load(std::memory_order_acquire)) thread_usleep(1000);
+        // end the workers: they may be in an untimed sleep
+        while (g_pressure_alive.load() > 0) {
+            for (auto& p : g_pw) if (auto th = p.load(std::memory_order_acquire)) thread_interrupt(th, EINTR);
+            thread_usleep(500);
+        }
+    } else if (v == 1) {
+        while (!g_pressure_on.load(std::memory_order_acquire)) thread_usleep(200);
+        for (uint64_t n = 0; n < interrupts * 200000 && g_pressure_delivered.load(std::memory_order_relaxed) < interrupts; ++n) {
+            if (auto th = g_pw[n & 3].load(std::memory_order_acquire)) {
+                if (g_pw_sleeping[n & 3].load(std::memory_order_acquire)) {   // (about to be) asleep: the interrupt moves it into the stand-by queue
+                    thread_interrupt(th, EINTR);
+                    g_pressure_delivered.fetch_add(1, std::memory_order_acq_rel);
+                    c_pressure_intr.add();
+                }
+            }
+            if ((n & 4095) == 4095) { thread_yield(); vh::progress(); }
+        }
+        g_pressure_end.store(true, std::memory_order_release);
+    }
+}
+
 int main(int argc, char** argv) {
     vh::init(argc, argv);
     vh::Rng r(vh::args().xseed());
@@ -256,11 +330,11 @@ int main(int argc, char** argv) {
     bool os_intr = !single && r.chance(1, 2);
     using namespace photon::verif;
     // the heap walker: structural part always; "no expired sleeper left behind" only with a single writer of photon::now
-    g_hooks.tunable[T_SLEEPQ_WALK].store(single ? 3 : 1);
+    g_hooks.tunable[T_SLEEPQ_WALK].store(single ? 3 : 5);
     g_hooks.event = &sleepq_event;
     vh::arm_stalls(r, {P_INTERRUPT_BEFORE_LOCK, P_RESUME_BEFORE_LOCK, P_PRELOCKED_INTERRUPT, P_WAITQ_RESUME});
     vh::config("vcpus", g_nv); vh::config("sleepers_per_vcpu", per); vh::config("ops", g_ops); vh::config("os_interrupter", os_intr);
-    vh::config("walker", single ? "structural+expired" : "structural");
+    vh::config("walker", single ? "structural+expired" : "structural+starvation");
     vh::start_supervisor(on_stuck);
 
     g_aux_running.store(g_nv + (os_intr ? 1 : 0));
@@ -286,6 +360,7 @@ int main(int argc, char** argv) {
             g_stop.store(true, std::memory_order_release);
         }
         for (auto h : jh) thread_join(h);
+        if (g_nv >= 2) run_pressure(v, (vh::args().thorough() ? 20000 : 5000) / (vh::is_tsan() ? 4 : 1));
         if (v == 0) {
             // targeted sub-workloads on a quiet vCPU
             for (int i = 0; i < g_ns; ++i) g_s[i].th.store(nullptr);
